@@ -198,3 +198,18 @@ func init() {
 		Assumptions: []string{trustDeps},
 	}
 }
+
+func init() {
+	Properties["C18"] = PropSpec{
+		Rules:       []Rule{Schemata, KConsistent, ResultAlgebra, ResLinear},
+		Explanation: "SCHEMATA/POST: the per-field and per-item schemata lists of a Result only receive appends to themselves or fresh slices (never the list of a result about to be recycled), every recorded entry holds cloned schemata, an absent member is recorded exactly on (absent, Default != nil, !skipSchemataResult), every schema-validation result — also for nil data — carries its schema as root schemata; ApplyDefaults has a single write, key.Object()[key.Field()] = s.Default, confined to members found absent by a comma-ok lookup of the same object and field, s ranging over that member's schemata with Default != nil, over every recorded member. K-CONSISTENT: each member's result is merged under (container, that member's key). RESULT-ALGEBRA/RES-LINEAR: merges apply their effects once and results are not used after release.",
+		NotDecided:  "Which anyOf/oneOf alternative's schemata survive, correctness at depth and that no other member appears beyond the single-write shape: value-level.",
+		Assumptions: []string{trustDeps},
+	}
+	Properties["C19"] = PropSpec{
+		Rules:       []Rule{Schemata, KConsistent, ResultAlgebra, ResLinear},
+		Explanation: "SCHEMATA/POST as for C18, and for pruning: pruneObject's single write is delete(obj, field) with field ranging over obj, decided by FieldSchemata()[NewFieldKey(obj, field)] of the same object and member; prune recurses into every map value and slice element. K-CONSISTENT: the result of validating a member (declared, pattern or additional property, tuple / additional / list item) is filed under (container, that member's own key or index), so a described member has schemata and an undescribed one has none.",
+		NotDecided:  "As C18; idempotence of pruning.",
+		Assumptions: []string{trustDeps},
+	}
+}
